@@ -511,12 +511,18 @@ pub struct JobInfoResponse {
     pub jobs: Vec<JobInfo>,
 }
 
+/// Maximal number of task ids reported in [`JobDetail::tasks_not_found`]
+pub const MAX_TASKS_NOT_FOUND: usize = 1024;
+
 #[derive(Serialize, Deserialize, Debug, Clone)]
 pub struct JobDetail {
     pub info: JobInfo,
     pub job_desc: JobDescription,
     pub submit_descs: Vec<SubmittedJobDescription>,
     pub tasks: Vec<(JobTaskId, JobTaskInfo)>,
+    /// Requested task ids that are not in the job.
+    /// A task selector may contain billions of ids, so only the first
+    /// [`MAX_TASKS_NOT_FOUND`] of them are reported.
     pub tasks_not_found: Vec<JobTaskId>,
 
     // Date when job was submitted
